@@ -366,3 +366,4 @@ MANIFEST = {
 MANIFEST["text"] += " Also: per-call setup (targets for this call's loss type, propagator arrays) lies on every path to the epoch loop (R8, must-pass-through); borrowed instances: the propagator kernel's unit modulus / linearity in the slice thickness / per-axis frequency grids (R9 = C16's rules) and the mixed-state orthogonalisation's index alignment (R10 = C10's rules)."
 MANIFEST["text"] += " R3 also: patch indices wrap per axis — a flat index reduced modulo the object area (rows·columns) wraps rows only and is reported."
 MANIFEST["text"] += ' R5: the sub-pixel remainder is resolved through subscripts, locals and property getters and must be position − torch.round(position).'
+MANIFEST["text"] += ' R8 is coupled with the slice_thicknesses setter (a conditional refresh in reconstruct is sound while the setter recomputes).'
